@@ -35,7 +35,31 @@ Theorem no_internal_error : forall rid fmt l0 ops,
 Proof. exact no_internal_error_lemma. Qed.
 Print Assumptions no_internal_error.
 
-(* Registering the very class that already holds the name changes nothing at all (registry, tag sets, library). *)
+(* "Re-registration of the same class is a no-op".  For the library a class IS its import path (`_class_hash`;
+   DESIGN section 10), and `register` compares nothing else.  Exactly what happens when the name is held by a class
+   with the same hash - the identical object or ANOTHER class object with the same import path: the call is
+   accepted; the names, every name's tag, `_tags`, the library's tag table and the protected list are unchanged;
+   the stored object becomes the one just passed, in place (`sset`, dict order kept).  (In the code the library
+   slot receives a fresh `tag_fn` closure over the same registry; the model identifies a slot with its owner.) *)
+Theorem same_hash_reregistration_replaces_object_only : forall rid fmt l0 ops n c t c',
+  let '(r, l, _) := run rid fmt rempty l0 ops in
+  slookup n (reg r) = Some (c, t) -> cls_hash c' = cls_hash c ->
+  step rid fmt r l (ORegister n c') = ({| reg := sset n (c', t) (reg r); tgs := tgs r |}, l, RNone).
+Proof. exact same_hash_reregistration_lemma. Qed.
+Print Assumptions same_hash_reregistration_replaces_object_only.
+
+(* The same, seen through the API: get(n) is the new object, every other name and the set of names are as before. *)
+Theorem same_hash_reregistration_seen_through_api : forall rid fmt l0 ops n c t c',
+  let '(r, l, _) := run rid fmt rempty l0 ops in
+  slookup n (reg r) = Some (c, t) -> cls_hash c' = cls_hash c ->
+  let '(r', l', x) := step rid fmt r l (ORegister n c') in
+  x = RNone /\ l' = l /\ tgs r' = tgs r /\ get n r' = RCls c' /\
+  (forall m, m <> n -> get m r' = get m r) /\ skeys (reg r') = skeys (reg r).
+Proof. exact same_hash_reregistration_api_lemma. Qed.
+Print Assumptions same_hash_reregistration_seen_through_api.
+
+(* Special case c' = c: registering the very class object that already holds the name changes nothing at all
+   (registry, tag sets, library). *)
 Theorem same_class_reregistration_noop : forall rid fmt l0 ops n c t,
   let '(r, l, _) := run rid fmt rempty l0 ops in
   slookup n (reg r) = Some (c, t) -> step rid fmt r l (ORegister n c) = (r, l, RNone).
@@ -113,6 +137,13 @@ Theorem world_library_consistent : forall ops w0 i rg l0 t,
 Proof. exact world_library_consistent_lemma. Qed.
 Print Assumptions world_library_consistent.
 
+(* The tree form of the correspondence check (harness/c15.py, exhaustive part) accepts a forest of calls exactly when
+   every history in it - every path from a root to a node - is accepted call by call. *)
+Theorem tree_check_is_per_history_check : forall f w,
+  check_forest w f = true <-> forall p, In p (forest_paths f) -> check_path w p = true.
+Proof. exact check_forest_paths_lemma. Qed.
+Print Assumptions tree_check_is_per_history_check.
+
 (* ---------- anchors: the constants of /repo the concrete formatters / protected list were written for ---------- *)
 Example tag_re_anchor : Gen.C15.tag_re_pattern = s2n "^[\w\-\:\@\.\#/]+$"%string /\ Gen.C15.tag_re_flags = 32%N.
 Proof. split; reflexivity. Qed.
@@ -126,6 +157,14 @@ Example protected_tags_anchor :
   nmem (s2n "slot"%string) Gen.C15.protected_tags = true /\ nmem (s2n "fill"%string) Gen.C15.protected_tags = true /\
   nmem Gen.C15.component_formatter_tag Gen.C15.protected_tags = false /\
   forallb valid_tag Gen.C15.protected_tags = true.
+Proof. vm_compute. repeat split. Qed.
+
+(* the table for code points >= 128 probed from TAG_RE: Latin letters with diacritics, Greek, CJK and non-ASCII digits
+   are tag characters; the multiplication sign, the no-break space and U+0080 are not *)
+Example tag_ranges_hi_anchor :
+  map tag_char [233; 955; 20013; 1635; 178]%N = [true; true; true; true; true] /\
+  map tag_char [215; 160; 128; 8232]%N = [false; false; false; false] /\
+  valid_tag [99; 97; 102; 233]%N = true /\ valid_tag [99; 215; 102]%N = false.
 Proof. vm_compute. repeat split. Qed.
 
 (* ---------- non-vacuity ---------- *)
@@ -147,6 +186,48 @@ Example history_exercises_everything :
   fst (fst (run 7%N (fmt_of FShorthand) rempty l0 [ORegister (s2n "slot"%string) (0, 0)%N; ORegister (s2n "my tag"%string) (0, 0)%N]))
     = rempty.
 Proof. vm_compute. repeat split. Qed.
+
+(* Same import path, different class object (K1 = (1,1), K1b = (1,2)): accepted, nothing but the stored object
+   changes, get returns the NEW object; a class with another hash is refused.  This is the reading of "the same
+   class" adopted here (identity = import path); it is reported in the evidence, never an alarm. *)
+Example same_hash_other_object_replaces_stored_object :
+  let l0 := {| ltags := [(s2n "slot"%string, OBuiltin)]; prot := Gen.C15.protected_tags |} in
+  let f := fmt_of (FComponent Gen.C15.component_formatter_tag) in
+  let '(r1, l1, _) := run 7%N f rempty l0 [ORegister (s2n "a"%string) (1, 1)%N; ORegister (s2n "b"%string) (0, 0)%N] in
+  let '(r2, l2, outs) := run 7%N f r1 l1 [ORegister (s2n "a"%string) (1, 2)%N; OGet (s2n "a"%string);
+                                          ORegister (s2n "a"%string) (0, 0)%N; OAll] in
+  outs = [RNone; RCls (1, 2)%N; RErr EAlreadyRegistered;
+          RAll [(s2n "a"%string, (1, 2)%N); (s2n "b"%string, (0, 0)%N)]] /\
+  contents r1 = [(s2n "a"%string, (1, 1)%N); (s2n "b"%string, (0, 0)%N)] /\
+  tgs r2 = tgs r1 /\ l2 = l1 /\ map (fun e => snd (snd e)) (reg r2) = map (fun e => snd (snd e)) (reg r1).
+Proof. vm_compute. repeat split. Qed.
+
+(* The statement protects PROTECTED tags only.  A pre-existing tag that is NOT in the protected list (a Library
+   handed to the registry without mark_protected_tags) is overwritten by a component whose tag collides with it
+   (shorthand formatter: tag = component name) and is REMOVED from the library when that component is unregistered;
+   the same history on a protected library is refused and leaves the tag alone.  Allowed by the statement; stated
+   here so that nobody reads more into protected_never_touched / library_tag_iff_used. *)
+Example unprotected_builtin_overwritten_then_removed :
+  let slot := s2n "slot"%string in
+  let ops := [ORegister slot (0, 0)%N; OUnregister slot] in
+  let open := {| ltags := [(slot, OBuiltin)]; prot := [] |} in
+  let guarded := {| ltags := [(slot, OBuiltin)]; prot := Gen.C15.protected_tags |} in
+  (let '(_, l, _) := run 7%N (fmt_of FShorthand) rempty open [ORegister slot (0, 0)%N] in ltags l) = [(slot, OComp 7%N)] /\
+  (let '(_, l, outs) := run 7%N (fmt_of FShorthand) rempty open ops in (ltags l, outs)) = ([], [RNone; RNone]) /\
+  (let '(_, l, outs) := run 7%N (fmt_of FShorthand) rempty guarded ops in (ltags l, outs))
+    = ([(slot, OBuiltin)], [RErr ETagProtected; RErr ENotRegistered]).
+Proof. vm_compute. repeat split. Qed.
+
+(* the tree check is not vacuous: a two-level forest with the right observations is accepted, with a wrong one refused *)
+Example tree_check_discriminates :
+  let a := s2n "a"%string in
+  let w := mk_world [([], [])] [(0, FShorthand)] in
+  let q1 : out * list (list (str * (N * N))) * list (list (str * bool)) := (RNone, [[(a, (0, 0)%N)]], [[(a, false)]]) in
+  let q2 : out * list (list (str * (N * N))) * list (list (str * bool)) := (RNone, [[]], [[]]) in
+  let q3 : out * list (list (str * (N * N))) * list (list (str * bool)) := (RNone, [[]], [[(a, false)]]) in
+  check_forest w (FC (K (WOp 0 (ORegister a (0, 0)%N)) q1 (FC (K (WOp 0 (OUnregister a)) q2 FN) FN)) FN) = true /\
+  check_forest w (FC (K (WOp 0 (ORegister a (0, 0)%N)) q1 (FC (K (WOp 0 (OUnregister a)) q3 FN) FN)) FN) = false.
+Proof. vm_compute. split; reflexivity. Qed.
 
 (* OUTSIDE the claimed domain (observation, not a defect of the property as quantified): two registries that
    share one library.  Unregistering in the second removes the `component` tag the first still needs, so the
